@@ -107,7 +107,7 @@ impl<I: RecvmsgSyscall> RecvmsgSyscall for NioRecvmsgSyscall<I> {
                     if blocking {
                         set_blocking(fd);
                     }
-                    return r;
+                    return received.try_into().expect("received overflow");
                 } else if r != -1 {
                     reset_errno();
                     received += libc::size_t::try_from(r).expect("r overflow");
@@ -130,12 +130,19 @@ impl<I: RecvmsgSyscall> RecvmsgSyscall for NioRecvmsgSyscall<I> {
                         if blocking {
                             set_blocking(fd);
                         }
+                        if received > 0 {
+                            // report what has been transferred so far, not the last call's result
+                            r = received.try_into().expect("received overflow");
+                        }
                         return r;
                     }
                 } else if error_kind != ErrorKind::Interrupted {
                     std::mem::forget(vec);
                     if blocking {
                         set_blocking(fd);
+                    }
+                    if received > 0 {
+                        r = received.try_into().expect("received overflow");
                     }
                     return r;
                 }
@@ -147,6 +154,9 @@ impl<I: RecvmsgSyscall> RecvmsgSyscall for NioRecvmsgSyscall<I> {
         std::mem::forget(vec);
         if blocking {
             set_blocking(fd);
+        }
+        if received > 0 {
+            r = received.try_into().expect("received overflow");
         }
         r
     }
